@@ -47,7 +47,8 @@ def config(draw, reuse=None):
         taken.add(a)
         aliases.append([a, draw(st.sampled_from(gnames))])
     order = draw(st.permutations(list(range(sum(len(g['labels']) for g in groups)))))
-    return dict(groups=groups, aliases=aliases, order=list(order), crlf=draw(st.booleans()))
+    return dict(groups=groups, aliases=aliases, order=list(order), crlf=draw(st.booleans()),
+                alias_typedef=bool(aliases) or draw(st.booleans()), masktype_rows=draw(st.booleans()))
 
 
 def mixcase(draw, s):
@@ -95,15 +96,16 @@ def render(cfg):
              '    short bit; # Bit number, 0-indexed', '    char label[30]; # Bit label',
              '    char description[100]; # text description', '} maskbits;', '', 'typedef struct {',
              '    char flag[20]; # Flag name', '    short datatype; # Data type {8, 16, 32, 64}',
-             '    char description[100]; # text description', '} masktype;', '', 'typedef struct {',
-             '    char flag[20]; # Flag (real) name', '    char alias[20]; # Alias',
-             '    char description[100]; # text description', '} maskalias;', '']
+             '    char description[100]; # text description', '} masktype;', '']
+    if cfg.get('alias_typedef', True):
+        lines += ['typedef struct {', '    char flag[20]; # Flag (real) name', '    char alias[20]; # Alias',
+                  '    char description[100]; # text description', '} maskalias;', '']
     rows = []
     for g in cfg['groups']:
         for l, b in g['labels']:
             rows.append('maskbits %s %2d %s    "bit %d of %s; a #description"' % (g['name'], b, l, b, g['name']))
     rows = [rows[i] for i in cfg['order']]
-    for i, g in enumerate(cfg['groups']):
+    for i, g in enumerate(cfg['groups'] if cfg.get('masktype_rows', True) else []):
         rows.insert((7 * i) % (len(rows) + 1), 'masktype %s 64 "the %s group"' % (g['name'], g['name']))
     for j, (a, t) in enumerate(cfg['aliases']):
         rows.insert((3 * j + 1) % (len(rows) + 1), 'maskalias %s %s "%s is a synonym for %s."' % (t, a, a, t))
@@ -144,7 +146,7 @@ def body(case):
                     check(list(back) == exp_names, 'names-value-names', lambda: dict(names=q['names'], got=list(back), want=exp_names))
                 # value -> names (ascending bit order) -> value restricted to defined bits
                 v = q['value']
-                for val in (v, np.uint64(v)):
+                for val in (v, np.uint64(v), np.uint64(v).astype(np.int64)):      # the last: the same 64-bit pattern as FITS stores it (signed)
                     got_names = call(sdss_flagname, q['group'], val)
                     exp = [l for l, b in sorted(bits.items(), key=lambda x: x[1]) if v >> b & 1]
                     with judge('flagname'):
